@@ -87,6 +87,10 @@ def serveModel (f : List String) : String :=
   | some c => showResp (serve c.cfg c.req c.inner) ++ " ok"
 
 def serveJudge (f : List String) (out : String) : String :=
+  if out.startsWith "PANIC:" then "bad:not-contained:a panic escaped Server.ServeHTTP"
+  else if (out.splitOn "other:").length > 1 then "bad:body:the body contains bytes that are neither the handler's nor a known error page"
+  else if (out.splitOn "X:").length > 1 then "bad:body:the body is not decodable under its Content-Encoding"
+  else
   match parseCase f, out.splitOn " " with
   | some c, [cm, st, body, fu] =>
     match cm.toNat?, st.toNat?, parseBody body with
